@@ -1,7 +1,7 @@
 (* C14 — the universe theorems instantiated to every type of the generated schema (Gen/TLSchema.v is
    re-generated from the .tl files on each run). *)
 From Coq Require Import ZArith List Bool Lia.
-From SH Require Import Common.Wrap TL.Model TL.Proofs Gen.TLSchema.
+From SH Require Import Common.Wrap TL.Model TL.Proofs TL.Model2 TL.Proofs2 Gen.TLSchema.
 Import ListNotations.
 Open Scope Z_scope.
 
@@ -29,4 +29,20 @@ Proof.
     pose proof schema_entries_ok as H. rewrite forallb_forall in H. specialize (H _ Hin).
     unfold entry_ok in H. simpl in H.
     apply andb_true_iff in H as [H _]. apply andb_true_iff in H as [_ H]. exact H.
+Qed.
+
+(* ---------- TL2 ---------- *)
+(* every schema item for which the generated code has TL2 methods lies in the TL2 fragment of the universe *)
+Definition tl2_desc (i : nat) : desc := snd (nth i schema (0, DStruct [])).
+Lemma schema_tl2_ok : forallb (fun i => tl2_ok (tl2_desc i) && (Nat.ltb i (length schema))) tl2_items = true.
+Proof. vm_compute. reflexivity. Qed.
+Lemma schema_tl2_nonempty : (20 <? zlen tl2_items) = true.
+Proof. vm_compute. reflexivity. Qed.
+
+Theorem schema_tl2_roundtrip : forall i, In i tl2_items ->
+  forall v rest, wf2 (tl2_desc i) v = true -> dec2 (tl2_desc i) (enc2 (tl2_desc i) v ++ rest) = Some (v, rest).
+Proof.
+  intros i Hin v rest Hwf. apply tl2_roundtrip; [|exact Hwf].
+  pose proof schema_tl2_ok as H. rewrite forallb_forall in H. specialize (H _ Hin).
+  apply andb_true_iff in H as [H _]. exact H.
 Qed.
